@@ -118,6 +118,7 @@ pub fn run(ctx: &Ctx) -> Option<Report> {
             rep.merge(run_cases(ctx, 6, 8, "", |i, _seed, r| window_fill(i, r)));
         }
         "C07" => rep.merge(run_cases(ctx, 7, 2, "", |i, _seed, r| mid_size_alias_publish(i, r))),
+        "C13" => rep.merge(run_cases(ctx, 9, 8, "", |i, _seed, r| many_aliases(i, r))),
         _ => {}
     }
     Some(rep)
@@ -615,6 +616,70 @@ fn mid_size_alias_publish(i: u64, rep: &mut Report) {
                 if !delivered {
                     fail(rep, &format!("not-delivered;in_handled_set={}", handled.contains(&9)), format!("a well-formed {}-byte alias-only QoS 2 PUBLISH (id 9, alias bound) was not delivered: {}; handled set afterwards {:?}", f.len(), evs_short(&evs), handled));
                 }
+            }
+        }
+    }
+}
+
+/// C13 (directed, many at once): dozens of topics through a send-side alias table of 2 .. 40 entries with automatic
+/// mapping / replacement, explicit rebinding of aliases in use in between, three rounds in scattered orders: the shared
+/// model keeps the receiver's table and judges every PUBLISH that goes out (AL1-AL3)
+fn many_aliases(i: u64, rep: &mut Report) {
+    use crate::apkt::*;
+    use crate::conn::*;
+    use crate::refcodec as rc;
+    let idw = if i % 2 == 0 { 2 } else { 4 };
+    let as_client = (i / 2) % 2 == 0;
+    let role = if (i / 4) % 2 == 0 { if as_client { Role::Client } else { Role::Server } } else { Role::Any };
+    let ver = Ver::V5;
+    let known = known_signatures();
+    for tam in [2u16, 15, 16, 17, 18, 32, 40] {
+        for mode in 0..3u8 {
+            let sc = Scenario { role, idw, ver: LVer::V5, focus: Focus::Alias, max_ops: 0, hostile_pct: 0, as_client, speak: Ver::V5, connect_first: false };
+            let mut d = Driver::new(sc, 13);
+            d.known = known.clone();
+            // mode 0: automatic mapping; 1: automatic replacement of aliases the application registered; 2: both
+            if mode != 1 {
+                d.set_opt(Opt::AutoMapTopicAlias, true);
+            }
+            if mode != 0 {
+                d.set_opt(Opt::AutoReplaceTopicAlias, true);
+            }
+            let connect = Pkt::Connect { ver, clean: true, keep_alive: 0, client_id: b"c".to_vec(), will: None, user: None, pass: None, props: if as_client { vec![] } else { vec![p_u16(P_TAM, tam)] } };
+            let connack = Pkt::Connack { ver, sp: false, code: 0, props: if as_client { vec![p_u16(P_TAM, tam)] } else { vec![] } };
+            if as_client {
+                d.send(connect);
+                d.feed(&rc::encode(&connack, idw), &[]);
+            } else {
+                d.feed(&rc::encode(&connect, idw), &[]);
+                d.send(connack);
+            }
+            let ntopics = 45usize;
+            let mut x: u64 = 0x9E37 + tam as u64 * 31 + mode as u64;
+            for round in 0..3 {
+                for step in 0..ntopics {
+                    x = x.wrapping_mul(6364136223846793005).wrapping_add(1442695040888963407);
+                    let k = if round == 0 { step } else { (x >> 33) as usize % ntopics };
+                    let topic = format!("demo/topic/{}", k).into_bytes();
+                    let mut props = vec![];
+                    // now and then the application binds an alias itself - possibly one that is in use
+                    if (x >> 20) % 7 == 0 {
+                        props.push(p_u16(P_TA, 1 + ((x >> 40) as u16 % tam)));
+                    }
+                    d.send(Pkt::Publish { ver, dup: false, qos: 0, retain: false, topic, id: None, props, payload: vec![b'm'] });
+                }
+            }
+            let out = d.finish();
+            rep.evaluations += 1;
+            rep.api_calls += out.api_calls;
+            for (k, v) in out.hits.iter() {
+                if k.starts_with("AL") {
+                    rep.hit_n(k, *v);
+                }
+            }
+            rep.distinct_case(format!("many aliases {:?} {} {} tam={} mode={}", role, idw, as_client, tam, mode).as_bytes());
+            for f in out.found.iter().filter(|f| f.property == "C13") {
+                rep.violate(Violation { property: "C13".into(), rule: f.rule.to_string(), signature: f.signature(), what: format!("[45 topics through an alias table of {}, mode {}] {}", tam, mode, f.what), witness: json!({"history_tail": trace_json(&out.trace[out.trace.len().saturating_sub(40)..])}), case: (9, i) });
             }
         }
     }
